@@ -168,6 +168,17 @@ def cases(seed=0, thorough=False):
         r = ds.Select(lambda e:
                       {A}).Select(lambda e: {B})
         """.format(A=body(a, "e"), B=body(b, "e")), ["lambda e: {A}".format(A=body(a, "e")), "lambda e: {B}".format(B=body(b, "e"))], False, "O9 body on the next line, second lambda after it")
+    # ---- layouts with a recorded known finding (see known_findings.json): still exercised on every run
+    a, b = nb(), nb()
+    add("""
+        flag_{n} = False
+        r = ds.Select((lambda e: {A}) if flag_{n} else (lambda e: {B}))
+        """.format(n=a, A=body(a, "e"), B=body(b, "e")), ["lambda e: {B}".format(B=body(b, "e"))], False, "K1 conditional expression choosing between two lambdas")
+    out[-1]["known_id"] = "C03-conditional-argument"
+    a, b = nb(), nb()
+    add("r = ds.Select(f=lambda e: {A}).Select(lambda e: {B})".format(A=body(a, "e"), B=body(b, "e")),
+        ["lambda e: {A}".format(A=body(a, "e")), "lambda e: {B}".format(B=body(b, "e"))], False, "K2 lambda passed by keyword, same-signature lambda later on the line")
+    out[-1]["known_id"] = "C03-keyword-argument"
     # ---- combinatorial chains: number of calls x methods x argument names x line-break style
     ncombo = 400 if thorough else 90
     styles = ["oneline", "black", "breakopen", "mixed", "bodybreak"]
